@@ -25,7 +25,7 @@ const (
 
 func init() {
 	Registry["C17"] = Spec{
-		Pkgs: map[string][]string{"v2": {"introspection", "introspds", "astvisitor", "plan"}},
+		Pkgs: map[string][]string{"v2": {"introspection", "introspds", "astvisitor", "plan", "astimport", "ast"}},
 		Run:  runC17,
 		Explanation: "Decides the structural slice of 'introspection describes exactly the schema': every callback the generator's visitor (and the introspection datasource planner) implements is registered with the walker, and the walker's registration methods really store and dispatch every callback they promise; " +
 			"the kind dispatches are total and agree with each other (converter arms for every named __TypeKind and every wrapper kind, the generator's type-reference function produces every kind and gives a reference the kind its definition is declared with, every []InputValue collection of the model is fed under the node kind of its owner, every root operation type is recorded); " +
@@ -33,6 +33,11 @@ func init() {
 			"the datasource announces exactly the JSON fields the model serialises per __typename; the planner's input keys are the keys Source.Load decodes; the planner's includeDeprecated filter covers every collection whose elements carry isDeprecated and reads the key the model writes. " +
 			"It does not decide the round trip toSDL(fromIntrospection(generate(S))) ~ S nor the engine's answers as values.",
 		Mutants: []Mutant{
+			{Name: "includeDeprecated looked up once per cached plan (seeded change C17-21, without the sync import)", File: "v2/pkg/engine/plan/visitor.go", Rule: "C17-R13", Key: "Visitor.resolveSkipArrayItem/plan-closure-is-stateless",
+				Old: "\t\treturn func(ctx *resolve.Context, itemValue *astjson.Value) bool {\n\t\t\tshouldIncludeDeprecated := false\n\n\t\t\tif includeDeprecatedVariableName != \"\" {\n",
+				New: "\t\tshouldIncludeDeprecated, looked := false, false\n\t\treturn func(ctx *resolve.Context, itemValue *astjson.Value) bool {\n\t\t\tif !looked && includeDeprecatedVariableName != \"\" {\n\t\t\t\tlooked = true\n"},
+			{Name: "value importer loses null (seeded change C17-22)", File: "v2/pkg/astimport/astimport.go", Rule: "C17-R12", Key: "Importer.importValueWithRename/value-kinds",
+				Old: "\tcase ast.ValueKindNull:\n\t\t// empty case\n\n", New: ""},
 			{Name: "introspection responses encoded into a buffer kept on the shared Source (seeded change C17-11)", File: "v2/pkg/engine/datasource/introspection_datasource/source.go", Rule: "C17-R11", Key: "Source.Load/never-writes-the-shared-source",
 				Old: "\tif req.RequestType == TypeRequestType {\n\t\treturn s.singleTypeBytes(req.TypeName)\n\t}\n", New: "\ts.introspectionData = s.introspectionData\n\tif req.RequestType == TypeRequestType {\n\t\treturn s.singleTypeBytes(req.TypeName)\n\t}\n"},
 			// R1
@@ -222,6 +227,13 @@ func c17ReportsError(info *types.Info, cc *ast.CaseClause) bool {
 
 func runC17(r *fw.Run) {
 	defer c17SourceIsReadOnly(r)
+	defer c17PlanClosuresAreStateless(r)
+	defer func() {
+		// the converter imports default values into the SDL document through astimport: a value kind without an arm (the default
+		// arm only prints a note and yields ValueKindUnknown) is converted to nothing — `max: Int = null` prints as `max: Int = `
+		r.Rule("C17-R12", "the value importer the JSON→SDL converter uses (astimport.Importer.importValueWithRename) has an arm for every ast.ValueKind (its default arm does not fail, it yields an unknown value)")
+		valueKindCoverageIn(r, "C17-R12", "astimport", []string{"Importer.importValueWithRename"})
+	}()
 	p := r.Prog
 	pk := p.Pkg("introspection")
 	ds := p.Pkg("introspds")
@@ -1883,4 +1895,83 @@ func c17SourceIsReadOnly(r *fw.Run) {
 			strings.Join(bad, "; ")+" — the Source belongs to the cached plan: concurrent introspection requests (e.g. __type(name:) for different types) overwrite each other's response bytes — invalid JSON or another type's description is returned")
 	}
 	r.Expect("C17-R11", "Source methods reachable from Load", nFuncs, 3)
+}
+
+// c17PlanClosuresAreStateless (R13): plans are cached and shared by all requests of an engine. The planner stores closures
+// in the plan that run per request (they receive the request's *resolve.Context) — the includeDeprecated item filter of
+// introspection fields is one. Such a closure may read what it captured at plan time, but it must not keep per-request
+// results in captured variables: the first request's value (includeDeprecated: true) would be frozen into the cached plan
+// for every later request. The rule: a function literal of package plan that takes a *resolve.Context writes no variable
+// declared outside itself and calls no sync/atomic method on a captured variable.
+func c17PlanClosuresAreStateless(r *fw.Run) {
+	p := r.Prog
+	r.Rule("C17-R13", "the per-request closures the planner stores in a (cached, shared) plan — function literals of package plan that receive a *resolve.Context — are stateless: no write to a captured variable, no sync / atomic call on one")
+	n := 0
+	for _, fi := range p.Funcs("plan") {
+		info := fi.Info()
+		ord := 0
+		fw.WalkAll(fi.Decl.Body, func(nd ast.Node) bool {
+			lit, ok := nd.(*ast.FuncLit)
+			if !ok {
+				return true
+			}
+			takesCtx := false
+			for _, f := range lit.Type.Params.List {
+				if tv, okT := info.Types[f.Type]; okT && fw.TypeIs(derefT(tv.Type), "resolve", "Context") {
+					takesCtx = true
+				}
+			}
+			if !takesCtx {
+				return true
+			}
+			n++
+			ord++
+			own := map[types.Object]bool{}
+			fw.WalkAll(lit, func(m ast.Node) bool {
+				if id, isID := m.(*ast.Ident); isID {
+					if o := info.Defs[id]; o != nil {
+						own[o] = true
+					}
+				}
+				return true
+			})
+			captured := func(e ast.Expr) types.Object {
+				o := fw.RootObj(info, e)
+				v, isVar := o.(*types.Var)
+				if !isVar || own[o] || v.IsField() || v.Parent() == v.Pkg().Scope() {
+					return nil
+				}
+				return o
+			}
+			var bad ast.Node
+			what := ""
+			fw.WalkAll(lit.Body, func(m ast.Node) bool {
+				for _, t := range fw.WriteTargets(info, m) {
+					if o := captured(t); o != nil && bad == nil {
+						if _, isPtrDeref := ast.Unparen(t).(*ast.Ident); isPtrDeref {
+							bad, what = m, "assigns the captured variable "+o.Name()
+						}
+					}
+				}
+				if c, isCall := m.(*ast.CallExpr); isCall && bad == nil {
+					if sel, isSel := ast.Unparen(c.Fun).(*ast.SelectorExpr); isSel {
+						if fn := fw.Callee(info, c); fn != nil && fn.Pkg() != nil && (fn.Pkg().Path() == "sync" || fn.Pkg().Path() == "sync/atomic") {
+							if o := captured(sel.X); o != nil {
+								bad, what = m, "calls "+fn.Pkg().Name()+"."+fw.FuncName(fn)+" on the captured variable "+o.Name()
+							}
+						}
+					}
+				}
+				return true
+			})
+			pos := lit.Pos()
+			if bad != nil {
+				pos = bad.Pos()
+			}
+			r.Check(bad == nil, "C17-R13", fi.Name()+"/plan-closure-is-stateless#"+itoa(ord), p.Pos(pos), "the per-request closure built in "+fi.Name()+" keeps no state in captured variables",
+				"the closure "+what+": the value computed for the first request is stored in the cached plan and reused for every later request that hits the plan cache — includeDeprecated:true / :false normalise to the same cache key, so the first request decides whether deprecated fields are listed for everyone")
+			return true
+		})
+	}
+	r.Expect("C17-R13", "per-request closures built by the planner", n, 1)
 }
